@@ -251,8 +251,15 @@ def run(ctx):
                 _, labels = A.switch_info(irm, sw)
                 some_t = [tg for tg, ns in labels.items() if "Some" in ns]
             errs = list(A.error_starts(irm))
+            # the workers may be gone (database dropped, only this handle survives): the weak sender's upgrade() answering
+            # None is the one legitimate way around the wake-up
+            gone = []
+            for b_, t_ in irm.calls():
+                if A.cname(t_).endswith("WeakSender::<T>::upgrade") or A.cname(t_).endswith("::upgrade") and "flume" in A.cname(t_):
+                    s_, labels_ = A.option_switch_on(irm, og, b_)
+                    gone += [tg for tg, ns in labels_.items() if "None" in ns]
             r1 = A.reach(irm, some_t, avoid=enq + errs)
-            r2 = A.reach(irm, some_t, avoid=wake + errs)
+            r2 = A.reach(irm, some_t, avoid=wake + errs + gone)
             miss_enq = [x for x in irm.return_blocks() if x in r1]
             miss_wake = [x for x in irm.return_blocks() if x in r2]
             ok = bool(some_t) and not miss_enq and not miss_wake
@@ -260,3 +267,54 @@ def run(ctx):
                 "a memtable can be sealed without %s: it is never flushed, and once four sealed memtables pile up every writer of the keyspace waits in local_backpressure() forever" % (
                     "a flush task for this keyspace being enqueued (e.g. skipped when the SHARED flush queue is not empty)" if miss_enq else "a worker being woken (WorkerMessage::Flush)")
         ctx.ob("R-C14.5", irm, "sealed-memtable-always-gets-a-flush-task", ok, detail)
+
+    # ---- R-C14.6 one notion of "visible" for every read.  A writer applies its items to the memtable and THEN publishes the
+    # seqno; scans, snapshots and transactions read at the visible seqno.  A point read at SeqNo::MAX (or any raw number)
+    # sees the write between apply and publish: a get() finds an insert that a range read started LATER does not find (no
+    # linearization point), and two get()s see half a batch.  Every tree read outside the meta keyspace reads at the
+    # instant of a registered view.
+    from . import C05
+    POINT = ("get", "contains_key", "size_of")
+    npoint = 0
+    for fid, fn in sorted(F.fns.items()):
+        if fid.startswith("meta_keyspace::") or fid.startswith("<meta_keyspace::"):
+            continue  # internal; written and read under the keyspaces lock
+        for b, t in C05.tree_read_calls(fn):
+            leaf = A.cname(t).rsplit("::", 1)[-1]
+            if leaf not in POINT:
+                continue
+            og = ctx.og(fn)
+            terms = [og.of_operand(x) for x in C05.seqno_args(fn, t)]
+            npoint += 1
+            ctx.count_sites()
+            ok = len(terms) == 1 and any(x.k == "field" and x.a[1] in ("instant",) for x in A.alternatives(terms[0]))
+            ctx.ob("R-C14.6", fn, "point-read-%s#%d-at-view-instant" % (leaf, sum(1 for bb, tt in C05.tree_read_calls(fn) if bb < b and A.cname(tt) == A.cname(t)) + 1), ok,
+                   "tree.%s reads at %s" % (leaf, ", ".join(A.tstr(x)[:60] for x in terms)) + ("" if ok else
+                   " — not the instant of a registered view: the read sees a write that is applied but not yet published, which a range read / snapshot started afterwards does not see (reads disagree on the order of writes)"), fn.loc(b))
+    ctx.floor("R-C14.6", "point reads of a tree outside the meta keyspace", npoint, 9)
+
+    # ---- R-C14.7 a writer that waits for background work asks for it.  check_write_halt() parks writers while L0 has >= 30
+    # runs; compaction requests are otherwise only sent after a flush and can all be consumed (declined: L0 busy) while one
+    # long compaction runs.  The waiting loop itself must send WorkerMessage::Compact.
+    cwh = ctx.fn("keyspace::Keyspace::check_write_halt", "R-C14.7")
+    if cwh:
+        og = ctx.og(cwh)
+        l0 = [b for b, t in cwh.calls() if A.cname(t).endswith("::l0_run_count")]
+        sleeps = [b for b, t in cwh.calls() if A.cname(t) == "std::thread::sleep"]
+        sends = [b for b, t in cwh.calls() if A.cname(t).endswith(("Sender::<T>::try_send", "Sender::<T>::send")) and
+                 any("Compact" in str(x.a[0]) for x in A.walk(og.of_operand(t["args"][1])) if x.k == "agg")]
+        loop = [b for b in l0 if A.in_cycle(cwh, b)]
+        ok = False
+        detail = "check_write_halt has no waiting loop on l0_run_count()"
+        if loop:
+            cyc_sends = [s for s in sends if A.in_cycle(cwh, s)]
+            # the workers may be gone (weak sender): only that edge may go around the send
+            gone = []
+            for b_, t_ in cwh.calls():
+                if A.cname(t_).endswith("::upgrade") and "flume" in A.cname(t_):
+                    s_, labels_ = A.option_switch_on(cwh, og, b_)
+                    gone += [tg for tg, ns in labels_.items() if "None" in ns]
+            ok = bool(cyc_sends) and all(sl not in A.reach(cwh, cwh.succs(loop[0]), avoid=cyc_sends + gone + loop) for sl in sleeps if A.in_cycle(cwh, sl))
+            detail = "every iteration of the halt loop sends WorkerMessage::Compact for this keyspace before it sleeps" if ok else \
+                "the write-halt loop only sleeps and re-reads l0_run_count(): nobody requests the compaction it waits for — when the post-flush Compact messages were consumed while another compaction ran, writers stay parked forever on an idle database"
+        ctx.ob("R-C14.7", cwh, "halted-writer-requests-compaction", ok, detail)
